@@ -135,6 +135,73 @@ def analyse(rules):
 BATTERY = [''] + [' '.join(t) for k in (1, 2, 3) for t in itertools.product('tu', repeat=k)]
 
 
+def to_model(rules, left_recursion=True):
+    """build the grammar model directly from tatsu.peg constructors (0.6 ms instead of 50 ms through the text);
+    only the node kinds of this domain"""
+    from tatsu import peg as g
+
+    def conv(e):
+        k = e[0]
+        if k == 'tok':
+            return g.Token(token=e[1])
+        if k == 'call':
+            return g.Call(name=e[1])
+        if k == 'opt':
+            return g.Optional(exp=conv(e[1]))
+        if k == 'star':
+            return g.Closure(exp=conv(e[1]))
+        if k == 'seq':
+            return g.Sequence(sequence=[conv(x) for x in e[1]])
+        if k == 'alt':
+            return g.Choice(options=[g.Option(exp=conv(x)) for x in e[1]])
+        raise ValueError(k)
+    directives = {} if left_recursion else {'left_recursion': False}
+    return g.Grammar('D16', [g.Rule(name=n, exp=conv(x)) for n, x in rules], directives=directives)
+
+
+def check_direct(rules):
+    """detection + flags through directly built models (no battery); returns (detail|None, info)"""
+    from tatsu.exceptions import GrammarError
+    an = analyse(rules)
+    info = dict(cycle=an['cycle'], skipped=False, nullable_prefix=an['nullable_prefix_before_call'], ncycle=len(an['oncycle']))
+    if an['nullable_call_prefix']:
+        info['skipped'] = True
+        return None, info
+    try:
+        to_model(rules, False)
+        raised = False
+    except GrammarError:
+        raised = True
+    except Exception as e:
+        return dict(bucket=f'direct:compile-off:{type(e).__name__}', oracle='model construction returns or raises GrammarError', observed=str(e)[:200]), info
+    if raised != an['cycle']:
+        return dict(bucket='direct:detection', oracle='GrammarError iff some rule reaches itself through left-position calls', expected=an['cycle'], observed=raised,
+                    edges={k: sorted(v) for k, v in an['edges'].items()}), info
+    try:
+        m = to_model(rules, True)
+    except Exception as e:
+        return dict(bucket=f'direct:compile-on:{type(e).__name__}', oracle='model construction with left recursion on', observed=str(e)[:200]), info
+    fl = {r.name: (r.is_lrec, r.is_memo) for r in m.rules}
+    for n, (lrec, memo) in fl.items():
+        if n not in an['oncycle'] and (lrec or not memo):
+            return dict(bucket='direct:flags-off-cycle', oracle='a rule on no left-call cycle is memoized and not left recursive', rule=n,
+                        observed=dict(is_lrec=lrec, is_memo=memo), oncycle=sorted(an['oncycle'])), info
+    leaders = {n for n, (lrec, _) in fl.items() if lrec}
+    rest = {n: {x for x in es if x not in leaders} for n, es in an['edges'].items() if n not in leaders}
+    for n in rest:
+        seen = set()
+        stack = list(rest[n])
+        while stack:
+            x = stack.pop()
+            if x in seen:
+                continue
+            seen.add(x)
+            stack.extend(rest.get(x, ()))
+        if n in seen:
+            return dict(bucket='direct:unguarded-cycle', oracle='every left-call cycle contains a rule marked left recursive', rule=n, leaders=sorted(leaders)), info
+    return None, info
+
+
 def check(rules, battery=True):
     """returns (detail|None, info)"""
     rules = [(n, tup(x)) for n, x in rules]
@@ -237,13 +304,62 @@ def plan(tier):
     shards = [dict(kind='enum', index=i, nshards=nsh) for i in range(nsh)]
     n = 40 if tier == 'quick' else 1500
     shards += [dict(kind='random', n=n) for _ in range(16)]
+    # two rules x <= 2 alternatives each (3.26 million graphs) through directly built models:
+    # quick takes every 150th graph, thorough all of them
+    shards += [dict(kind='direct', index=i, nshards=16, stride=150 if tier == 'quick' else 1) for i in range(16)]
     return shards
 
 
 def run_shard(sh, kind, **kw):
     if kind == 'enum':
         return run_enum(sh, **kw)
+    if kind == 'direct':
+        return run_direct(sh, **kw)
     return run_random(sh, **kw)
+
+
+def run_direct(sh, index, nshards, stride):
+    b2 = bodies(2, 2)
+    k = 0
+    complete = True
+    nb = len(b2)
+    for ia in range(nb):
+        if ia % 64 == 0 and sh.out_of_budget():
+            complete = False
+            break
+        a = b2[ia]
+        for ib in range(nb):
+            k += 1
+            if k % stride:
+                continue
+            if (k // stride) % nshards != index:
+                continue
+            rules = [('r0', a), ('r1', b2[ib])]
+            d, info = check_direct(rules)
+            sh.evaluations += 1
+            if (info.get('cycle') or info.get('nullable_prefix')) and not info.get('skipped'):
+                sh.nontrivial.add((ia << 16) | ib)
+            sh.classes['direct:cycle' if info.get('cycle') else 'direct:no-cycle'] += 1
+            if info.get('skipped'):
+                sh.classes['direct:skipped'] += 1
+            if d is not None:
+                sh.fail(d['bucket'], dict(rules=rules, direct=True), d)
+            elif (k // stride) % 997 == 0:
+                # cross-check the shortcut against the text path: same flags, same pretty text
+                try:
+                    m1 = to_model(rules, True)
+                    m2 = tu.compile_grammar(grammar_text(rules))
+                    f1 = [(r.name, r.is_lrec, r.is_memo) for r in m1.rules]
+                    f2 = [(r.name, r.is_lrec, r.is_memo) for r in m2.rules]
+                    if f1 != f2 or m1.pretty() != m2.pretty():
+                        sh.fail('direct:text-vs-model', dict(rules=rules, direct=True), dict(bucket='direct:text-vs-model', oracle='the directly built model equals the compiled text',
+                                                                                         direct=f1, text=f2))
+                    sh.classes['direct:text-crosscheck'] += 1
+                except Exception as e:
+                    sh.note(f'cross-check raised {type(e).__name__}')
+    if len(sh.samples) < 3:
+        sh.samples.append(dict(grammar=grammar_text([('r0', b2[7]), ('r1', b2[index * 50 % nb])]), note='direct tier sample'))
+    sh.exhaustive[f'2 rules x <= 2 alternatives ({nb * nb} graphs), every {stride}th, detection + flags via directly built models'] = complete and stride == 1
 
 
 def run_enum(sh, index, nshards):
@@ -295,7 +411,11 @@ def run_random(sh, n):
 
 
 def replay(case):
-    d, _ = check(case['rules'])
+    rules = [(n, tup(x)) for n, x in case['rules']]
+    if case.get('direct'):
+        d, _ = check_direct(rules)
+        return d
+    d, _ = check(rules)
     return d
 
 
